@@ -134,9 +134,12 @@ pub fn run(args: &Args) {
     let mut agg = Aggregate::new();
     let hostile = prop == "C12";
     let n = match prop.as_str() { "C12" => args.n(1_500, 100_000), _ => args.n(300, 10_000) };
-    let streams: Vec<(&str, u64)> = if hostile { vec![("hostile", n)] } else { vec![("save-open", n), ("large", args.n(8, 64))] };
+    let mut streams: Vec<(&str, u64)> = if hostile { vec![("hostile", n)] } else { vec![("save-open", n), ("large", args.n(8, 64))] };
+    // C03 only: tags that contain the separators of the KeePass tag list (finding F18)
+    if prop == "C03" { streams.push(("tag-separators", args.n(12, 200))); }
     for (stream, count) in streams {
     let large = stream == "large";
+    let tagsep = stream == "tag-separators";
     run_cases(&mut agg, args, stream, count, |case_i, rng, model| {
         let mut o = CaseOutcome::default();
         let (db, markers, pmarkers, htags) = {
@@ -170,6 +173,14 @@ pub fn run(args: &Args) {
                 big.times = g.times();
                 db.root.children.push(Node::Entry(big));
                 db.header_attachments.push(HeaderAttachment { flags: 1, content: vec![0x5a; 1000] });
+            }
+            if tagsep {
+                use keepass::db::{Entry, Node};
+                let mut e = Entry::default();
+                e.uuid = g.uuid();
+                e.times = g.times();
+                e.tags.push(format!("work{}home", g.rng.pick(&[";", ","])));
+                db.root.children.push(Node::Entry(e));
             }
             if let Some(c) = only { g.hostile_tags.push(format!("class-only:{}", c)); }
             (db, g.markers, g.protected_markers, g.hostile_tags)
@@ -256,6 +267,21 @@ pub fn run(args: &Args) {
                 // ---------- C03: identity on the lossless domain ----------
                 if !hostile && *d2 != db {
                     o.violation = Some(format!("save followed by open is not the identity: {}", crate::diff::first_difference(&db, d2)));
+                    if tagsep {
+                        // the class is recomputed from the input: the only difference allowed to count is the split tag
+                        let mut d3 = d2.clone();
+                        fn rejoin(g: &mut keepass::db::Group, want: &keepass::db::Group) {
+                            for (n, w) in g.children.iter_mut().zip(want.children.iter()) {
+                                match (n, w) {
+                                    (keepass::db::Node::Entry(e), keepass::db::Node::Entry(we)) => if we.tags.iter().any(|t| t.contains(';') || t.contains(',')) { e.tags = we.tags.clone(); },
+                                    (keepass::db::Node::Group(a), keepass::db::Node::Group(b)) => rejoin(a, b),
+                                    _ => {}
+                                }
+                            }
+                        }
+                        rejoin(&mut d3.root, &db.root);
+                        if d3 == db { o.violation_class = Some("tag-separator".into()); }
+                    }
                 }
             }
         }
